@@ -136,3 +136,20 @@ func Harness_Self_StringsAndMaps() {
 	verifAssert(isStr && !isInt, "type assertion")
 	verifCover("end")
 }
+
+type stHolder struct {
+	N int
+	V any
+}
+
+func Harness_Self_UncomparableInterface() {
+	a, b := verifInt("a"), verifInt("b")
+	x, y := stHolder{a, []int{1}}, stHolder{b, []int{1}}
+	p, msg := tryRun(func() { _ = any(x) == any(y) })
+	if a == b {
+		verifAssert(p, "== reaching an uncomparable dynamic type panics: "+msg)
+	} else {
+		verifAssert(!p, "== stops at the first differing field before an uncomparable one")
+	}
+	verifCover("end")
+}
